@@ -245,6 +245,17 @@ def reference_check(doc):
     return problems, port_ops, messages
 
 
+def _first_diff(a, b):
+    if a is None or b is None:
+        return (a is None, b is None)
+    import difflib
+    pp = lambda d: etree.tostring(etree.fromstring(d), pretty_print=True).decode().splitlines()
+    try:
+        return [l for l in difflib.unified_diff(pp(a), pp(b), lineterm='', n=0)][:8]
+    except Exception as e:
+        return repr(e)
+
+
 def _mk_closure(kind):
     @obligation('C07.closure.%s' % kind, targets=['spyne.interface.wsdl.wsdl11:Wsdl11.build_interface_document',
                                                   'spyne.interface.xml_schema._base:XmlSchema.build_schema_nodes'],
@@ -273,12 +284,28 @@ def _mk_closure(kind):
                 opname = d.operation_name
                 c.check('one_operation_per_method', len(port_ops.get(opname, [])) == 1,
                         detail=(opname, [p for p, _ in port_ops.get(opname, [])]))
-        if c.concrete or True:
-            try:
-                schemas = etree.fromstring(doc).findall('.//{%s}schema' % XSD)
-                c.check('schemas_present', len(schemas) >= 1)
-            except Exception as e:
-                c.check('schemas_present', False, detail=repr(e))
+        try:
+            schemas = etree.fromstring(doc).findall('.//{%s}schema' % XSD)
+            c.check('schemas_present', len(schemas) >= 1)
+        except Exception as e:
+            c.check('schemas_present', False, detail=repr(e))
+        # "building the documents repeatedly": the same builder again, a second builder on the same interface, and a
+        # builder that runs after the validation schema was generated from it, all give the same bytes
+        again = c.run(w.build_interface_document, 'http://example.com/')
+        c.check('rebuild_is_identical', again.returned and w.get_interface_document() == doc,
+                detail=_first_diff(doc, w.get_interface_document()) if again.returned else repr(again))
+        w2 = Wsdl11(app.interface)
+        o2 = c.run(w2.build_interface_document, 'http://example.com/')
+        c.check('second_builder_is_identical', o2.returned and w2.get_interface_document() == doc,
+                detail=_first_diff(doc, w2.get_interface_document()) if o2.returned else repr(o2))
+        from spyne.interface.xml_schema import XmlSchema
+        xs = XmlSchema(app.interface)
+        o3 = c.run(xs.build_validation_schema)
+        w3 = Wsdl11(app.interface)
+        o4 = c.run(w3.build_interface_document, 'http://example.com/')
+        c.check('builder_after_validation_schema_is_identical', o3.returned and o4.returned and
+                w3.get_interface_document() == doc, detail=_first_diff(doc, w3.get_interface_document()) if o4.returned
+                else (repr(o3), repr(o4)))
     return ob
 
 
